@@ -103,6 +103,11 @@ def check(ctx, report):
                              modules={'cryptoparser.ssh.key'},
                              title='structures of host keys and certificates are composed as held: items in stored order, no constant in place of an attribute')
     report.floor('C16.R9', 100, 'fields of host key / certificate structures')
+    # ---- R10: hassh reads the name-lists from the attributes of the message: every list of the KEXINIT is parsed into the attribute
+    # the composer writes at that position (binding comparison shared with C01.R2)
+    fields_written_as_stored(ctx, report, RULE='C16.R10', kinds=None, what=('',), modules={'cryptoparser.ssh.subprotocol'},
+                             title='KEXINIT and the other SSH messages: every wire position is parsed into the attribute the composer writes there')
+    report.floor('C16.R10', 40, 'fields of SSH messages')
     # ---- R4: the blob that is hashed is the RFC 4253 / PROTOCOL.certkeys encoding (layout comparison shared with C07.R1)
     report.rule('C16.R4', 'composer of every host key / certificate class equals the specified key blob layout')
     from .. import speccheck
